@@ -91,6 +91,9 @@ ATOMS = {
     "for(int i=0;i<vnp->vn_frequencies-1;++i)|frequency_vector[i]>=frequency_vector[i+1]": "atom:fv_not_ascending",
     "_vnacal_new_check_all_frequency_ranges(__func__,vnp,frequency_vector[0],frequency_vector[vnp->vn_frequencies-1])==-1":
         "atom:parameter_ranges_bad",
+    # fix DM90: the frequencies cannot be changed under a measurement error model
+    "if(vnp->vn_m_error_vector!=NULL)|for(int i=0;i<vnp->vn_frequencies;++i)|frequency_vector[i]!=vnp->vn_frequency_vector[i]":
+        "atom:fv_changes_under_m_error",
     # vnacal_new_set_m_error
     "for(int i=0;i<frequencies;++i)|sigma_nf_vector[i]<=0": "atom:sigma_nf_has_nonpositive",
     "if(sigma_tr_vector!=NULL)|for(int i=0;i<frequencies;++i)|sigma_tr_vector[i]<0": "atom:sigma_tr_has_negative",
